@@ -16,7 +16,7 @@
 (* next source event, so a late or early emission is rejected at the step  *)
 (* where it happens.  Exactly one verdict line is printed per trace.       *)
 (***************************************************************************)
-EXTENDS Contracts, Json, IOUtils
+EXTENDS MuxModel, Json, IOUtils
 
 CONSTANT Stepwise   \* TRUE: evaluate the contracts after every source event (locates the
                     \* first failing step); FALSE: once, on the complete logs (the causal
@@ -106,8 +106,42 @@ Reject(step, clauses) ==
     /\ PrintT(<<"VERDICT", tid, "REJECT", step, clauses>>)
     /\ st' = "end" /\ UNCHANGED <<tid, l>>
 
+(* ---- binding of the implementation model (layer B) to the same execution: the model
+   is run on the recorded source events and must produce the recorded logs, event for
+   event and ordinal for ordinal, at every boundary.  Reported with the verdict
+   (TRUE / FALSE / "n/a" when the pipeline uses an operator the model does not have);
+   never a reason to reject: the verdict is the contracts'. ---- *)
+ModelOps == {"map", "starmap", "filter", "flat_map", "identity", "do_action", "progress", "clip",
+             "fill_none", "scan", "count", "sum", "mean", "min", "max", "first", "last", "take",
+             "distinct", "duc", "lag", "pad_start", "pad_end", "start_with", "batch", "to_list",
+             "to_array", "assert", "assert1", "ignore", "errmap", "router", "roll", "split",
+             "group_by", "time_split", "tee"}
+
+RECURSIVE Modelled(_)
+Modelled(pipe) ==
+    \A i \in 1..Len(pipe) :
+        /\ pipe[i].op \in ModelOps
+        /\ (IsKeyer(pipe[i]) => Modelled(pipe[i].inner))
+        /\ (IsTee(pipe[i]) => \A b \in 1..Len(pipe[i].branches) : Modelled(pipe[i].branches[b]))
+
+RECURSIVE RunModel(_, _, _, _)
+RunModel(top, B0, i, S) ==
+    IF i > Len(B0) \/ S.dead THEN S
+    ELSE RunModel(top, B0, i + 1, Push(top, MEv(B0[i].t, B0[i].k, B0[i].v), S))
+
+InSync(t, logs) ==
+    IF ~Modelled(t.pipe) THEN "n/a"
+    ELSE LET S == RunModel(t.pipe, logs[<<0>>], 1, [InitS(t.pipe) EXCEPT !.src = (t.mode = "src")])
+             Strip3(L) == [q \in 1..Len(L) |-> <<L[q].t, L[q].k, L[q].v>>]
+         IN (* with a plain source the final subscriber is served between the events (its
+               deliveries take ordinals in the recording): compare without ordinals there *)
+            /\ \A p \in DOMAIN logs :
+                  IF t.mode = "mux" THEN S.logs[p] = logs[p] ELSE Strip3(S.logs[p]) = Strip3(logs[p])
+            /\ S.dead = (t.end.t = "error")
+            /\ [q \in 1..Len(S.dl) |-> S.dl[q].v] = [q \in 1..Len(t.dl) |-> t.dl[q].v]
+
 Accept(steps) ==
-    /\ PrintT(<<"VERDICT", tid, "ACCEPT", steps>>)
+    /\ PrintT(<<"VERDICT", tid, "ACCEPT", steps, InSync(Tr, LogsOf(Tr))>>)
     /\ st' = "end" /\ UNCHANGED <<tid, l>>
 
 TraceStep ==
